@@ -118,7 +118,7 @@ Definition find_item (m : msg) (name : bytes) (tc idx : N) : option (N * item) :
   | None => None
   end.
 
-(* what FindData hands back: the bytes (*data, *setSize) point at, or -- for a fixed-size element that is not
+(* what FindData hands back: the bytes that data and setSize describe, or -- for a fixed-size element that is not
    a plain value (MessageRef, pointer) -- object bits the model does not represent *)
 Inductive fdata := DBytes (bs : bytes) | DOpaque.
 
@@ -131,7 +131,7 @@ Definition find_data_tc (tc : N) (i : item) : option fdata :=
   else
     match i with
     | IRaw b => if len b =? 0 then None else Some (DBytes b)      (* `if (b)`: an empty ByteBuffer has no buffer *)
-    | _ => None                                                  (* dynamic_cast<ByteBuffer *> fails: B_TYPE_MISMATCH *)
+    | _ => None                                                  (* the dynamic_cast to ByteBuffer fails: B_TYPE_MISMATCH *)
     end.
 
 Definition find_data (m : msg) (name : bytes) (tc idx : N) : option fdata :=
